@@ -645,6 +645,9 @@ pub fn run(tier: Tier) -> i32 {
         s.obedient = false; // any host call order
     }
     explore_all(&mut rep, &systems, |s| tier.pick(depths[&s.name].0.saturating_sub(1).max(3), depths[&s.name].1), tier.pick(10.0, 300.0));
+    // the same under the configuration sweep, at shallow depth
+    let sweep: Vec<_> = build("C03", &PanicMon, crate::c08::sweep_defs(tier == Tier::Quick), true).into_iter().map(|(s, _)| s).collect();
+    explore_more(&mut rep, "sweep", &sweep, tier.pick(3, 4), tier.pick(2.0, 30.0));
     // (c) filter sequences
     let (fevals, fviol) = crate::c13::panic_sweep(tier);
     rep.violations(fviol);
@@ -674,9 +677,13 @@ pub fn replay(r: &serde_json::Value) {
     } else if r["kind"] == "filter" {
         crate::c13::replay(r);
     } else {
-        let mut systems: Vec<_> = build("C03", &PanicMon, world_defs(), true).into_iter().map(|(s, _)| s).collect();
+        let mut defs = world_defs();
+        defs.extend(crate::c08::sweep_defs(false));
+        let mut systems: Vec<_> = build("C03", &PanicMon, defs, true).into_iter().map(|(s, _)| s).collect();
         for s in &mut systems {
-            s.obedient = false;
+            if !s.name.starts_with("sweep-") {
+                s.obedient = false;
+            }
         }
         replay_world(&systems, r);
     }
